@@ -424,7 +424,7 @@ func filterSemantics(c *Ctx, info *types.Info, call *ast.CallExpr, fail func(kin
 		for _, s := range t.in {
 			l.Elems = append(l.Elems, lit(s))
 		}
-		in := &Interp{repo: c.Repo, plugin: "derive", decls: c.R.decls, or: &Oracle{}, memo: map[string]int{}, shape: 1, arities: []int{1, 0},
+		in := &Interp{repo: c.Repo, plugin: "derive", decls: c.GDecls, or: &Oracle{}, memo: map[string]int{}, shape: 1, arities: []int{1, 0},
 			preds: map[string]Value{}, stack: map[*ast.FuncDecl]int{}, imports: map[string]int{}, importUse: map[string]bool{}, holes: map[string]*Hole{}, g9mode: true}
 		var res Value
 		msg := ""
